@@ -274,6 +274,115 @@ Proof.
     destruct (filter (fun s => in_limit f s && matches f s) l); [destruct Hin | discriminate].
 Qed.
 
+(* ---- explicit snapshot arguments ---- *)
+Fixpoint dedup_from (seen l : list N) : list N :=
+  match l with
+  | [] => []
+  | x :: r => if memN x seen then dedup_from seen r else x :: dedup_from (x :: seen) r
+  end.
+
+Lemma memN_spec i l : memN i l = true <-> In i l.
+Proof.
+  unfold memN. rewrite existsb_exists. split.
+  - intros [x [Hx E]]. apply N.eqb_eq in E; subst; exact Hx.
+  - intros H. exists i. split; [exact H | apply N.eqb_refl].
+Qed.
+
+Lemma dedup_from_spec l : forall seen,
+  NoDup (dedup_from seen l) /\ forall x, In x (dedup_from seen l) <-> In x l /\ ~ In x seen.
+Proof.
+  induction l as [|a r IH]; intros seen; cbn [dedup_from].
+  - split; [constructor | intros x; split; [intros [] | intros [[] _]]].
+  - destruct (memN a seen) eqn:E.
+    + destruct (IH seen) as [N1 N2]. split; [exact N1|]. intros x. rewrite N2. apply memN_spec in E.
+      split; [intros [H1 H2]; split; [right; exact H1 | exact H2]|].
+      intros [[<-|H1] H2]; [contradiction | split; assumption].
+    + destruct (IH (a :: seen)) as [N1 N2].
+      assert (Hna : ~ In a seen) by (intro H; apply memN_spec in H; congruence).
+      split.
+      * constructor; [|exact N1]. rewrite N2. intros [_ H]. apply H. left; reflexivity.
+      * intros x. cbn [In]. rewrite N2. cbn [In]. split.
+        -- intros [<-|[H1 H2]]; [split; [left; reflexivity | exact Hna]|].
+           split; [right; exact H1 | intro H; apply H2; right; exact H].
+        -- intros [[<-|H1] H2]; [left; reflexivity|].
+           destruct (N.eq_dec a x) as [->|Hne]; [left; reflexivity|].
+           right. split; [exact H1 | intros [H|H]; [contradiction | contradiction]].
+Qed.
+
+(* without 'latest' among the arguments the delivered snapshots are exactly the resolvable plain
+   ids, each once, in order of first mention *)
+Lemma ids_go_no_latest f l args : forall ids,
+  has_latest args = false ->
+  snaps_of (ids_go f l false ids args) = dedup_from ids (plain_ids args).
+Proof.
+  induction args as [|a r IH]; intros ids H; cbn [ids_go].
+  - cbn. destruct (negb (filter_empty f)); reflexivity.
+  - cbn [has_latest existsb] in H. destruct a as [| |[i|] [|]]; cbn [orb] in H; try discriminate;
+      cbn [plain_ids flat_map app snaps_of]; fold (plain_ids r);
+      try (fold (snaps_of (ids_go f l false ids r)); apply IH, H).
+    cbn [dedup_from]. destruct (memN i ids).
+    + apply IH, H.
+    + cbn [snaps_of flat_map app]. f_equal. apply IH, H.
+Qed.
+
+Theorem find_ids_no_latest f l args :
+  has_latest args = false ->
+  snaps_of (find_ids f l args) = dedup_from [] (plain_ids args)
+  /\ NoDup (snaps_of (find_ids f l args))
+  /\ forall i, In i (snaps_of (find_ids f l args)) <-> In i (plain_ids args).
+Proof.
+  intros H. unfold find_ids. rewrite (ids_go_no_latest f l args [] H).
+  destruct (dedup_from_spec (plain_ids args) []) as [N1 N2]. split; [reflexivity|]. split; [exact N1|].
+  intros i. rewrite N2. split; [tauto | intros Hi; split; [exact Hi | intros []]].
+Qed.
+
+(* ---- soundness of the FindAll and grouping oracles ---- *)
+Lemma remove_id_perm i l r : remove_id i l = Some r -> Permutation l (i :: r).
+Proof.
+  revert r; induction l as [|x l IH]; intros r H; cbn [remove_id] in H; [discriminate|].
+  destruct (N.eqb_spec i x) as [->|Hne].
+  - inversion H; subst. apply Permutation_refl.
+  - destruct (remove_id i l) as [r'|]; [|discriminate]. inversion H; subst.
+    eapply Permutation_trans; [apply perm_skip, IH; reflexivity | apply perm_swap].
+Qed.
+
+Lemma perm_ids_sound a : forall b, perm_ids a b = true -> Permutation a b.
+Proof.
+  induction a as [|x a IH]; intros b H; cbn [perm_ids] in H.
+  - destruct b; [constructor | discriminate].
+  - destruct (remove_id x b) as [b'|] eqn:E; [|discriminate].
+    eapply Permutation_trans; [apply perm_skip, IH, H | apply Permutation_sym, remove_id_perm, E].
+Qed.
+
+(* FindAll oracle: the reported ids are exactly the ids of the matching snapshots, each once *)
+Theorem oracle_findall_sound f l obs :
+  check_C24 (KFindAll f l obs) = true -> Permutation obs (map sn_id (find_all f l)).
+Proof.
+  unfold check_C24. cbn [oracle_code].
+  destruct (perm_ids obs (map sn_id (filter (matches f) l))) eqn:E; [|discriminate].
+  intros _. apply perm_ids_sound, E.
+Qed.
+
+(* grouping oracle: the groups partition the input ids, no group is empty, every member's key is
+   its group's key, and no two groups share a key *)
+Theorem oracle_group_sound o l obs :
+  check_C24 (KGroup o l obs) = true ->
+  Permutation (concat (map snd obs)) (map sn_id l)
+  /\ (forall k ids, In (k, ids) obs ->
+        ids <> [] /\ forall i, In i ids -> exists s, lookup i l = Some s /\ key_of o s = k)
+  /\ distinct_keys (map fst obs) = true.
+Proof.
+  unfold check_C24. cbn [oracle_code]. destruct (group_ok o l obs) eqn:E; [|discriminate]. intros _.
+  unfold group_ok in E. apply andb_true_iff in E as [E E3]. apply andb_true_iff in E as [E1 E2].
+  split; [apply perm_ids_sound, E1|]. split; [|exact E3].
+  intros k ids Hin. rewrite forallb_forall in E2. specialize (E2 _ Hin). cbn [fst snd] in E2.
+  apply andb_true_iff in E2 as [Hn Hm]. split.
+  - destruct ids; [discriminate | discriminate].
+  - intros i Hi. rewrite forallb_forall in Hm. specialize (Hm i Hi).
+    destruct (lookup i l) as [s0|]; [|discriminate]. exists s0. split; [reflexivity|].
+    apply gkey_eqb_spec, Hm.
+Qed.
+
 (* ------------------------------------------------------------------ non-vacuity *)
 From Coq Require Import String. Open Scope string_scope.
 Example c24_nonvacuous :
@@ -288,5 +397,9 @@ Example c24_nonvacuous :
   /\ option_map sn_id (find_latest (mkF [str "h1"] [] [] (Some 250)) [s0; s1; s2; s3]) = Some 1%N
   /\ option_map sn_id (find_latest (mkF [str "h1"] [] [] (Some 250)) [s1; s0; s2; s3]) = Some 0%N
   /\ map sn_id (find_all (mkF [] [[[]]] [str "/a"] None) [s0; s1; s2; s3]) = [2%N]
-  /\ map sn_id (find_all (mkF [] [[a; b]; [[]]] [] None) [s0; s1; s2; s3]) = [0%N; 1%N; 2%N].
+  /\ map sn_id (find_all (mkF [] [[a; b]; [[]]] [] None) [s0; s1; s2; s3]) = [0%N; 1%N; 2%N]
+  /\ find_ids (mkF [str "h1"] [] [] None) [s0; s1; s2; s3]
+        [AId (Some 1%N) false; ALatest; AId (Some 3%N) false; AId (Some 1%N) false; ALatest; AId None false; AId (Some 0%N) true]
+      = [EvSnap 1; EvSnap 3; EvErr; EvErr]
+  /\ find_ids (mkF [str "h1"] [] [] None) [s0; s1; s2; s3] [AId (Some 2%N) false] = [EvSnap 2; EvErr].
 Proof. vm_compute. repeat split. Qed.
